@@ -457,7 +457,7 @@ def nontrivial(case, outs):
 
 def stats(cases, outs):
     d = {"ops": {}, "route": {}, "errors": {}, "cid_len": {}, "panics": 0, "slot_reuse": 0,
-         "zero_len_same_remote": 0, "max_live": 0}
+         "max_live": 0}
     names = {0: "config", 1: "connect", 2: "datagram", 3: "accept", 4: "reject", 5: "issue", 6: "retire",
              7: "reset_token", 8: "drained"}
     rk = {0: "none_or_buffered", 1: "connection", 2: "new_incoming", 3: "response", -1: "ill_formed"}
